@@ -29,6 +29,10 @@ var twinURNShapes = [][2][]string{
 		{"tel:+12065559876", "twitterid:11122233344#bob", "mailto:bobby@example.org"}},
 	{{"ext:1001:crm", "webchat:abcdefghijklmnopqrstuvwx:alice@example.com", "telegram:111222333#al:ice", "facebook:ref:alice77", "tel:+12065551212"},
 		{"ext:2002:erp", "webchat:zyxwvutsrqponmlkjihgfedc:bobby@example.org", "telegram:444555666#b:ob", "facebook:ref:bobby88", "tel:+12065559876"}},
+	// shapes 2 and 3: contacts WITHOUT a phone number - schemes whose paths look like one, and the remaining schemes
+	{{"whatsapp:12065551212", "viber:viberid1alice", "line:lineid1alice", "instagram:1234567", "discord:1111222233334444", "slack:U0123ALICE"},
+		{"whatsapp:12065559876", "viber:viberid2bobby", "line:lineid2bobby", "instagram:7654321", "discord:5555666677778888", "slack:U0456BOBBY"}},
+	{{"whatsapp:12065551212"}, {"whatsapp:12065559876"}},
 }
 var curTwin = -1     // -1: the default contact of the other checks
 var twinNoID = false // C19: the contact has no id either (a contact that was never saved)
@@ -158,7 +162,7 @@ func c19Redact(args []string) error {
 	n := 0
 	var errs []string
 	// saved by every node while the engine runs (one result per template: a template that errors saves nothing)
-	urnResults := []string{"@contact", "@contact.urn", "@urns.tel", "@input.urn", "@(format_urn(urns.twitterid))", "@parent.contact.urn", "@child.contact.urn", "@(json(contact.urns))", "@urns.webchat", "@urns.telegram"}
+	urnResults := []string{"@contact", "@contact.urn", "@urns.tel", "@input.urn", "@(format_urn(urns.twitterid))", "@parent.contact.urn", "@child.contact.urn", "@(json(contact.urns))", "@urns.webchat", "@urns.telegram", "@urns.whatsapp", "@(json(urns))"}
 	if *in != "" {
 		err = forEachLine(*in, *shard, *nshards, func(i int, data []byte) error {
 			b := &Behaviour{}
